@@ -893,7 +893,7 @@ CHECKS = [
     Check(name='sequence_scored', run=run_sequence_scored,
           strategy=direct_strategy('scored'),
           labels=direct_labels, nontrivial=direct_nontrivial,
-          budget={'quick': 8000, 'thorough': 80000},
+          budget={'quick': 6400, 'thorough': 80000}, time_share=2.5,
           doc='SequenceTokenCrossEntropyLoss / SequenceCrossEntropyLoss / '
               'SequenceTokenAccuracy / SequenceTokenTopKAccuracy vs the '
               'reference over masking patterns, logits masks, k and '
@@ -901,7 +901,7 @@ CHECKS = [
     Check(name='sequence_target_only', run=run_target_only,
           strategy=direct_strategy('target_only'),
           labels=direct_labels, nontrivial=direct_nontrivial,
-          budget={'quick': 8000, 'thorough': 80000},
+          budget={'quick': 8000, 'thorough': 80000}, time_share=0.7,
           doc='SequenceTokenCount / SequenceCount / SequenceTruncationRate / '
               'SequenceTokenOOVRate / SequenceLength vs the reference over '
               'masked / oov tuples of length 0-3 and all masking patterns'),
@@ -917,7 +917,7 @@ CHECKS = [
           strategy=per_domain_strategy,
           labels=per_domain_labels,
           nontrivial=lambda c, ls: c['D'] >= 2,
-          budget={'quick': 3200, 'thorough': 30000},
+          budget={'quick': 3200, 'thorough': 30000}, time_share=1.5,
           doc='PerDomainMetric(base, D) for every base metric: own-domain row '
               '== base statistic, other rows zero; merged over 1-4 examples, '
               'row d == base metric (reference) on the examples of domain d'),
